@@ -27,6 +27,10 @@ const ATOMS = {
   emptyObj: { src: '{}', ctors: ['Object'], samples: () => [{}] },
   objMethods: { src: '{ get(): string; set(v: string): void }', ctors: ['Object'], samples: () => [{ get() { return 's'; }, set() {} }] },
   ifaceMethods: { src: 'IMeth', ctors: ['Object'], samples: () => [{ commit() {} }], pre: 'interface IMeth { commit(name: string): void }' },
+  // interfaces without members of their own: any object; what they inherit counts (a callable parent makes them callable)
+  emptyIface: { src: 'IEmpty', ctors: ['Object'], samples: () => [{}, { a: 1 }], pre: 'interface IEmpty {}' },
+  extOnlyIface: { src: 'IExtOnly', ctors: ['Object'], samples: () => [{ x: 1 }], pre: 'interface IBaseO { x: number }\ninterface IExtOnly extends IBaseO {}' },
+  extCallIface: { src: 'IExtCall', ctors: ['Function'], samples: () => [() => {}], pre: 'interface IBaseF { (): void }\ninterface IExtCall extends IBaseF {}' },
   callSig: { src: '{ (): void }', ctors: ['Function'], samples: () => [() => {}] },
   iface: { src: 'IObj', ctors: ['Object'], samples: () => [{ y: 's' }], pre: 'interface IObj { y: string }' },
   ifaceFn: { src: 'IFn', ctors: ['Function'], samples: () => [() => {}], pre: 'interface IFn { (): void }' },
@@ -51,7 +55,7 @@ const ATOMS = {
   params: { src: 'Parameters<(a: string) => void>', ctors: ['Array'], samples: () => [['a']] },
 };
 const ATOM_KEYS = Object.keys(ATOMS);
-const CORE_ATOMS = ['string', 'boolean', 'number', 'strLit', 'bigLit', 'fn', 'arr', 'tuple', 'objLit', 'iface', 'Date', 'any', 'nul', 'emptyObj'];
+const CORE_ATOMS = ['string', 'boolean', 'number', 'strLit', 'bigLit', 'fn', 'arr', 'tuple', 'objLit', 'iface', 'Date', 'any', 'nul', 'emptyObj', 'emptyIface'];
 
 // terms: {a: atomKey} | {op, args: [term…]}
 const OPS = {
